@@ -50,7 +50,8 @@ def is_invalidation(n, flag):
                 for m in n.walk():
                     if m.k == "MemberExpr" and m.get("mk") == "field" and m.c and m.c[0].k == "CXXThisExpr":
                         fields.add(m.get("n"))
-                return ("idiom", fields)
+                if fields:
+                    return ("idiom", fields)
     return None
 
 
@@ -102,9 +103,19 @@ def check_setters(ctx, rule, fns, flag, exempt=None, name_filter=None, also_inva
                 return True
             return False
 
-        wit = cfg.paths_avoiding([(cfg.entry, -1)], inv_pred)
-        ok = wit is None
-        detail = "every normal path invalidates %s" % flag if ok else "a normal path writes %s without invalidating %s" % (sorted({f for _n, f in writes}), flag)
+        # every path that overwrites a field also invalidates (before or after the write)
+        ok = True
+        bad_field = None
+        for wn, fld in writes:
+            if wn.i not in cfg.pos:
+                continue
+            before = cfg.must_pass_from_entry([wn], inv_pred) is None
+            after = cfg.must_pass_before_exit([wn], inv_pred) is None
+            if not (before or after):
+                ok = False
+                bad_field = fld
+                break
+        detail = "every path that overwrites a field invalidates %s" % flag if ok else "a normal path overwrites %s without invalidating %s" % (bad_field, flag)
         # idiom ordering: the comparison must see the OLD value
         if ok:
             for n in fn.walk():
@@ -116,6 +127,8 @@ def check_setters(ctx, rule, fns, flag, exempt=None, name_filter=None, also_inva
                         break
                     cmp_fields = r[1]
                     written_here = {f for _n, f in writes}
+                    if not cmp_fields:
+                        continue  # comparison through a getter: the path condition above already covers it
                     if not (cmp_fields & written_here):
                         ok = False
                         detail = "idiom compares %s but the setter overwrites %s" % (sorted(cmp_fields), sorted(written_here))
